@@ -18,7 +18,8 @@ LEVEL_TEXT = ('Static decision of the structural necessary conditions of the AGP
               'formulas of the property statement; the recalculation protocol, arg-max wiring and freshness '
               'ordering are decided on event traces of the anchored functions; every writer of M / z* raises the '
               'recalculation flag; recorded trial values are immutable after the evaluation routine; no routine on any entry point lowers or '
-              'resets the Hoelder estimate; only the selection routine requests (pops) the best interval.')
+              'resets the Hoelder estimate; only the selection routine requests (pops) the best interval; the Hoelder length of every stored interval is '
+              '(x_r - x_l)^(1/N) with N the number of float variables, the dimension of the evolvent.')
 EXPLANATION = ('For every syntactic path (loops unrolled <= 2, trivial accessors inlined) of the routines that '
                'compute the characteristic, the estimate M, the new point, the seed, the full recomputation, the '
                'selection and the renewal, the stored/returned value is normalised to a rational function over '
@@ -884,6 +885,11 @@ def check(ctx: Ctx):
         r02_9(ctx)
     if C.want(ctx, 'R02.3'):
         r02_3_no_reset(ctx.full_view())
+    if C.want(ctx, 'R06.4'):
+        # the Hoelder length D = (x_r - x_l)^(1/N) of the statement: N is the dimension of the evolvent's domain
+        # (numberOfFloatVariables), whatever else the problem declares (= R06.4, re-run here)
+        from . import c06
+        c06.r06_4(ctx)
     for rid, fn in (('R02.1', r02_1), ('R02.2', r02_2), ('R02.3', r02_3), ('R02.4', r02_4), ('R02.5', r02_5),
                     ('R02.6', r02_6), ('R02.7', r02_7_8)):
         if C.want(ctx, rid) or (rid == 'R02.7' and C.want(ctx, 'R02.8')):
